@@ -19,6 +19,7 @@ package parser
 
 import (
 	"encoding/json"
+	"fmt"
 
 	"github.com/golang/protobuf/ptypes/any"
 	"github.com/golang/protobuf/ptypes/wrappers"
@@ -84,7 +85,7 @@ func ConvertToProto(intreeLog *undo.BranchUndoLog) *BranchUndoLog {
 				}
 
 				for _, col := range row.Columns {
-					anyValue, err := convertInterfaceToAny(col.GetActualValue())
+					anyValue, err := convertColumnValueToAny(col)
 					if err != nil {
 						continue
 					}
@@ -116,7 +117,7 @@ func ConvertToProto(intreeLog *undo.BranchUndoLog) *BranchUndoLog {
 				}
 
 				for _, col := range row.Columns {
-					anyValue, err := convertInterfaceToAny(col.Value)
+					anyValue, err := convertColumnValueToAny(col)
 					if err != nil {
 						continue
 					}
@@ -166,7 +167,7 @@ func ConvertToIntree(protoLog *BranchUndoLog) *undo.BranchUndoLog {
 				}
 
 				for _, pbCol := range pbRow.Columns {
-					anyValue, err := convertAnyToInterface(pbCol.Value)
+					anyValue, err := convertAnyToColumnValue(pbCol.Value, types.JDBCType(pbCol.ColumnType))
 					if err != nil {
 						continue
 					}
@@ -198,7 +199,7 @@ func ConvertToIntree(protoLog *BranchUndoLog) *undo.BranchUndoLog {
 				}
 
 				for _, pbCol := range pbRow.Columns {
-					anyValue, err := convertAnyToInterface(pbCol.Value)
+					anyValue, err := convertAnyToColumnValue(pbCol.Value, types.JDBCType(pbCol.ColumnType))
 					if err != nil {
 						continue
 					}
@@ -221,6 +222,46 @@ func ConvertToIntree(protoLog *BranchUndoLog) *undo.BranchUndoLog {
 	}
 
 	return intreeLog
+}
+
+// convertColumnValueToAny carries the value as the JSON the json parser writes for this column, so that both parsers
+// agree on the representation of every column type
+func convertColumnValueToAny(col types.ColumnImage) (*any.Any, error) {
+	doc, err := json.Marshal(&col)
+	if err != nil {
+		return nil, err
+	}
+	var holder struct {
+		Value json.RawMessage `json:"value"`
+	}
+	if err = json.Unmarshal(doc, &holder); err != nil {
+		return nil, err
+	}
+	if len(holder.Value) == 0 {
+		holder.Value = json.RawMessage("null")
+	}
+	anyValue := &any.Any{}
+	err = anypb.MarshalFrom(anyValue, &wrappers.BytesValue{Value: holder.Value}, proto.MarshalOptions{})
+	return anyValue, err
+}
+
+// convertAnyToColumnValue restores the Go value of a column of the given type, like the json parser does
+func convertAnyToColumnValue(anyValue *any.Any, columnType types.JDBCType) (interface{}, error) {
+	bytesValue := &wrappers.BytesValue{}
+	if err := anypb.UnmarshalTo(anyValue, bytesValue, proto.UnmarshalOptions{}); err != nil {
+		return nil, err
+	}
+	value := bytesValue.Value
+	if len(value) == 0 {
+		value = []byte("null")
+	}
+	doc := append([]byte(fmt.Sprintf(`{"type":%d,"value":`, int16(columnType))), value...)
+	doc = append(doc, '}')
+	var col types.ColumnImage
+	if err := json.Unmarshal(doc, &col); err != nil {
+		return nil, err
+	}
+	return col.Value, nil
 }
 
 func convertAnyToInterface(anyValue *any.Any) (interface{}, error) {
